@@ -66,7 +66,9 @@ fn build_siblings(word: &[Letter], tri: &[P]) -> Layout {
     let inst = |name: String, cell: &Ptr<Cell>, l: &Letter| Instance { inst_name: name, cell: cell.clone(), loc: pt(l.loc), reflect_vert: l.reflect, angle: l.angle };
     let mid = Layout { name: "mid".into(), insts: word[1..].iter().enumerate().map(|(i, l)| inst(format!("m{}", i), &leaf, l)).collect(), elems: vec![], annotations: vec![] };
     let mid: Ptr<Cell> = Ptr::new(Cell::from(mid));
-    Layout { name: "top".into(), insts: vec![inst("a".into(), &mid, &word[0]), inst("b".into(), &leaf, &word[word.len() - 1])], elems: vec![], annotations: vec![] }
+    // ... followed by a mirrored pair about a common origin: the same cell at the same place and angle, with opposite reflection
+    let twin = Letter { reflect: !word[0].reflect, ..word[0] };
+    Layout { name: "top".into(), insts: vec![inst("a".into(), &mid, &word[0]), inst("b".into(), &leaf, &word[word.len() - 1]), inst("c".into(), &leaf, &word[0]), inst("d".into(), &leaf, &twin)], elems: vec![], annotations: vec![] }
 }
 
 impl C12 {
@@ -82,6 +84,9 @@ impl C12 {
         let last = &word[word.len() - 1];
         let ml = IMap::instance(last.loc, last.reflect, last.quarter);
         want.push(tri.iter().map(|q| ml.apply(*q)).collect());
+        want.push(tri.iter().map(|q| m0.apply(*q)).collect());
+        let mt = IMap::instance(word[0].loc, !word[0].reflect, word[0].quarter);
+        want.push(tri.iter().map(|q| mt.apply(*q)).collect());
         want.sort();
         cx.eval();
         match guard(|| top.flatten()) {
